@@ -16,7 +16,7 @@ ENGINES = [
      "kind_free_text": "async_mutex on a manually polled io_context vs FIFO model, exhaustive short sequences + random, ASan+UBSan"},
     {"name": "codec_probe", "path": "src/probes/codec_probe.cpp", "serves_properties": ["C17", "C18", "C19"],
      "kind_free_text": "library encoders/decoders vs independent reference codec (src/ref), guard-page placement of hostile packets, ASan+UBSan"},
-    {"name": "simcheck", "path": "src/sim", "serves_properties": ["C01", "C02", "C03", "C04", "C05", "C06", "C07", "C08", "C09", "C10", "C11", "C12", "C13", "C14", "C15", "C16", "C17", "C19"],
+    {"name": "simcheck", "path": "src/sim", "serves_properties": ["C01", "C02", "C03", "C04", "C05", "C06", "C07", "C08", "C09", "C10", "C11", "C12", "C13", "C14", "C15", "C16", "C17", "C19", "C20"],
      "kind_free_text": "the real mqtt_client instantiated on a simulated stream in virtual time (timer/clock token interposition, no library edit beyond the resolve hook), a protocol-level broker model on the reference codec, fault plans, crash-point and idle-point sweeps, event-history monitors; clang ASan+UBSan"},
 ]
 
@@ -47,7 +47,7 @@ CLAIMS = {
             "guard page + clang sanitizers are the memory oracle; unit level (decoders) in this round",
             "runtime monitoring: guard-page + sanitizer oracle and differential oracle over structured hostile inputs", "codec_probe"),
     "C20": ("exploration",
-            "every (packet category, byte) pair of the finite 9x256 input space is executed against the real lookup under ASan with guarded tables and compared with the MQTT 5 admission tables; exhaustive over inputs, still a runtime observation",
+            "every (packet category, byte) pair of the finite 9x256 input space is executed against the real lookup under ASan with guarded tables and compared with the MQTT 5 admission tables; exhaustive over inputs, still a runtime observation; plus the lookups at their call sites: 3 x 256 scenarios on the real client (Server DISCONNECT, CONNACK, Server AUTH with every byte as reason code) judged through the logger and the client's reaction",
             "transcription of the MQTT 5 reason-code tables; clang ASan global red zones",
             "runtime monitoring: exhaustive input sweep under AddressSanitizer + reference-table oracle", "rc_probe"),
 }
